@@ -19,7 +19,7 @@ def demo(wt, sd):
         return (1 if ("FAIL" in out or rc != 0) else 0), out[-600:]
     d = os.path.join(sd, "demo")
     if os.path.isdir(d):
-        tmp = "/root/scratch/demo_tmp"; shutil.rmtree(tmp, ignore_errors=True); shutil.copytree(d, tmp)
+        tmp = "/root/scratch/demo_tmp" + os.environ.get("MUT_SLOT", ""); shutil.rmtree(tmp, ignore_errors=True); shutil.copytree(d, tmp)
         gm = open(os.path.join(tmp, "go.mod")).read()
         import re
         gm = re.sub(r"=>\s*\S+", "=> " + wt, gm); open(os.path.join(tmp, "go.mod"), "w").write(gm)
@@ -29,7 +29,7 @@ def demo(wt, sd):
     return None, "no demo found"
 def main():
     sd = os.path.abspath(sys.argv[1]); sid = sys.argv[2]; props = sys.argv[3:]
-    wt = "/root/scratch/seedwt"
+    wt = "/root/scratch/seedwt" + os.environ.get("MUT_SLOT", "")
     sh("git -C /repo worktree remove --force %s; rm -rf %s" % (wt, wt))
     rc, out = sh("git -C /repo worktree add -f %s HEAD" % wt); assert rc == 0, out
     d0, t0 = demo(wt, sd)
